@@ -1,6 +1,7 @@
 """C15 — aggregates equal their mathematical definitions in both calling conventions (DESIGN §4 C15).
 Decided clauses: (R1) one list vs separate arguments feed one vector of numbers; (R2) min/max mirror pair;
 (R3) the reduction written in each arm is the documented formula (shape oracle, not a numerical proof)."""
+import re
 from lib import hir as H
 from lib import sig as S
 from lib import binop as B
@@ -117,6 +118,51 @@ def run(ctx):
         got = [x[1] for x in vals]
         ctx.inst("C15.R3", "%s#reduction" % name, S.verdict(tuple(got), tuple(REDUCTION[name])), "computes %s; documented %s" % ([S.show(v) for v in got], [S.show(v) for v in REDUCTION[name]]), H.loc(a["body"]))
         ctx.inst("C15.R3", "%s#empty-is-error" % name, len(guards) == 1, "`if nums.is_empty() { return Err }` before the reduction: %s" % (len(guards) == 1), H.loc(a["body"]))
+    # ---- R10 order statistics are read from the sorted numbers; the result is what the arm computed; nothing is kept between calls
+    ctx.rule("C15.R10", "median and percentile index the numbers only after sorting them (an element read before the sort is whatever the caller wrote there: percentile(l, 0) must be the minimum for every order of l); the value an aggregate arm computed is the value the call returns (FunctionDef::call applies nothing but error context to a built-in's result); and no aggregate arm keeps state between calls (no static / thread-local buffer)", floor=4)
+    for name in ("Median", "Percentile"):
+        a = arms.get(name)
+        if a is None:
+            ctx.inst("C15.R10", "%s#sorted-before-indexed" % name, None, "no arm", None)
+            continue
+        sorts = [x for x in H.walk(a["body"]) if H.kind(x) == "MethodCall" and x["name"].startswith("sort") or (H.kind(x) == "MethodCall" and x["name"] in ("select_nth_unstable", "select_nth_unstable_by"))]
+        idx = [x for x in H.walk(a["body"]) if H.kind(x) == "Index" and "f64" in (H.strip(x["e"]).get("ty") or "")]
+        idx += [x for x in H.walk(a["body"]) if H.kind(x) == "MethodCall" and x["name"] in ("first", "last", "get") and "f64" in (x.get("recv_ty") or H.strip(x["recv"]).get("ty") or "")]
+        if not sorts:
+            ctx.inst("C15.R10", "%s#sorted-before-indexed" % name, None, "no sort found in the arm (a helper?)", H.loc(a["body"]))
+            continue
+        first_sort = min(x["sp"][3] for x in sorts)
+        early = [H.loc(x) for x in idx if x["sp"][3] < first_sort]
+        ctx.inst("C15.R10", "%s#sorted-before-indexed" % name, not early, "elements of the numbers read before the sort: %s" % (early or "none"), H.loc(a["body"]))
+    hfc10 = core.hir_fn("blots_core::functions::FunctionDef::call")
+    bcalls = [x for x in H.walk(hfc10["body"]) if H.kind(x) == "MethodCall" and x.get("def") == BCALL]
+    if len(bcalls) != 1:
+        ctx.inst("C15.R10", "FunctionDef::call#builtin-result-as-computed", None, "%d calls of BuiltInFunction::call in FunctionDef::call" % len(bcalls), H.loc(hfc10["body"]))
+    else:
+        chain = []
+        for x in H.walk(hfc10["body"]):
+            if H.kind(x) == "MethodCall" and x is not bcalls[0] and any(y is bcalls[0] for y in H.walk(x["recv"])):
+                chain.append(x["name"])
+        touch = sorted(set(chain) - {"map_err", "with_function_context", "with_call_site", "clone", "as_ref"})
+        ctx.inst("C15.R10", "FunctionDef::call#builtin-result-as-computed", not touch, "adapters applied to the result of BuiltInFunction::call: %s%s" % (sorted(set(chain)) or "none", "" if not touch else " - %s can replace the value the built-in computed" % touch), H.loc(bcalls[0]))
+    from lib import mir as M10
+    cg10 = M10.CallGraph([core])
+    BA10 = M10.BuiltinArms(core, cg10)
+    for name in AGG + ["Percentile"]:
+        fr = BA10.region(name)
+        if fr is None:
+            continue
+        fn10, region = fr
+        stat = set()
+        for b_ in region:
+            c_ = fn10.callee(b_) if fn10.term(b_)["k"] == "call" else None
+            if c_ and re.search(r"thread::local::LocalKey|LazyLock|OnceLock|Mutex|RwLock", c_):
+                stat.add(c_.split("::<")[0])
+            for s_ in fn10.stmts(b_):
+                if s_["k"] == "assign":
+                    stat |= set(re.findall(r"'static': '([^']+)'", str(s_["rv"])))
+        ctx.inst("C15.R10", "%s#stateless" % name, not stat, "statics / thread-locals the arm touches: %s" % (sorted(stat) or "none"), fn10.loc())
+
     # ---- R5 hand-written accumulation keeps infinities
     ctx.rule("C15.R5", "where sum / avg / prod accumulate in a hand-written loop or fold, the running value is never subtracted from or divided by something derived from itself (inf - inf and inf / inf are NaN: a list containing an infinity would no longer sum to that infinity), and the loop visits every element (no break / early return: a later sign or zero still counts)", floor=3)
     for name in ("Sum", "Avg", "Prod"):
